@@ -287,6 +287,29 @@ CLAIMED["C07"]["note"] = ("The round-trip law itself is bounded exploration (sam
     "contracts over ghost files (what json.loads / zstd / the atomic writer do is C08 / not modelled), apply_delta / compute_delta are "
     "uninterpreted functions, os.path.join is uninterpreted with one stated fact; corrupt baselines (unparsable JSON: an exception of "
     "_read_header_payload) and the delta branch of load_latest_snapshot are not under contract.")
+
+CLAIMED["C02"]["text"] += (" The metrics gate predicate (both copies: engine/util/metrics.py:gate_on, stages/t2/config.py:metrics_gate_on) is verified "
+    "(Engine V, every JSON-like cfg) to be true exactly when perf.enabled and perf.metrics.report_memory are both truthy, and the cache-hit "
+    "metric updates of the T2 stage are dominated by it.")
+CLAIMED.update({
+    "C13": {
+        "text": "Contract-based deductive proof of the planner, dialogue and sanitiser functions over a Dyn model of JSON-like values (every bundle / "
+                "every string / every JSON value): deliberate (len(ops) <= max(min(per-turn cap, per-slice cap), 0), Speak first, intent follows the "
+                "thresholds, RequestRetrieve only below tau_low, EditGraph caps, bundle not mutated), _policy_thresholds, _topic_labels_from_bundle, "
+                "_edit_nodes_from_bundle; rag_once (the retrieve callback is called at most once -- ghost call counter, also on exceptional "
+                "exits --, 0 times when already used or not requested, new ops within cap, plan/bundle unchanged) plus Engine-F clauses on run_turn "
+                "(single rag_once site, not in a loop, gated by requested_retrieve and max_rag_loops >= 1); both copies of _truncate_to_tokens and "
+                "speak (utterance tokens <= max(resolved budget, 0), never raises); _coerce_bool, _strip_triple_fences, parse_and_validate (never "
+                "raises for any input incl. exceptions inside generator bodies; accepted => single dict within the documented size limits), "
+                "sanitize_plan (never raises).",
+        "note": "Dyn (pyvc/dyn.py) is a trusted model of JSON-like values; json.loads returns an arbitrary Dyn or raises (no relation between text and "
+                "value assumed); whitespace split/join obey four stated axioms; rag_once and speak are proved for assembled bundles (wf_plan_bundle / "
+                "wf_dialog_bundle as named preconditions) and caps >= 0 (negative caps slice from the end: outside the validated config space); "
+                "speak's totality inside its comprehension bodies rests on a recorded assumption; llm_speak and the LLM adapter are not under "
+                "contract; purity of the planner is decided only as 'inputs not mutated + no nondeterminism source (C01 clause)'.",
+        "design": "DESIGN.md section 3 C13",
+    },
+})
 PENDING_REASON = "check not built yet (construction in progress, see DESIGN.md section 3)"
 NA = {}
 
